@@ -34,7 +34,7 @@ let parse_op s =
   | ["+"] -> ONewGen
   | ["-"; r] -> ONormalize (nat_of_int (int_of_string r))
   | ["F"] -> OFreeze
-  | ["W"] -> OThaw
+  | ["W"] | ["W"; _] -> OThaw
   | _ -> failwith ("bad op: " ^ s)
 
 let show_out = function
